@@ -217,7 +217,7 @@ func asCoq(as map[int]int) string {
 // expectedAs is the treated-as relation per the statement: the built-in OK/Success -> Info,
 // Fail -> Error, plus what the registrations of this scenario ASKED for (never read back from
 // the implementation's table: a registration that stores something else must show up).
-var expectedAs = map[int]int{}
+var expectedAs = map[int]int{9: 4, 10: 4, 11: 2}
 
 func resetExpectedAs() { expectedAs = map[int]int{9: 4, 10: 4, 11: 2} }
 
